@@ -69,6 +69,12 @@ def run(ctx):
     last = out.strip().split("\n")[-1] if out.strip() else "explorer silent"
     ctx.log(last)
     if rc != 0:
+        m = re.search(r"PARSE-TIMEOUT after (\d+)s spec=(.*)", out)
+        if m:
+            spec = m.group(2).strip()
+            ctx.violation("judge", "termination: a parse did not return within %s s of wall-clock time (no progress callback reached): %s" % (m.group(1), spec[:200]),
+                          {"spec": spec, "clause": "termination:timeout"},
+                          fingerprint={"lang": spec.split(" ")[0], "clause": "termination:timeout"})
         ctx.oblige("run:explorer", False, out[-800:])
         return ctx.finish()
     specs = {}
